@@ -57,7 +57,7 @@ def literal_program(rng):
 
 
 def cases(O):
-    n = 500 if O.tier == "quick" else 3000
+    n = 500 if O.tier == "quick" else 9000
     def cfg(rng):
         c = F.config_variants(rng)
         c["literals"] = rng.random() < 0.85
